@@ -22,6 +22,7 @@ type Val struct {
 	Clo   *Closure
 	Fn    *ssa.Function
 	GoT   types.Type
+	NilFlag string // for static pointers that may be nil: SMT Bool "is nil" ("" = never nil)
 	Elems []Val // statically known elements (slices over local arrays: variadic arguments, composite literals)
 }
 
@@ -47,6 +48,9 @@ type Addr struct {
 	N     int64  // array length for Base
 	PHeap string // element of a pointer heap: PHeap[PLoc]
 	PLoc  string
+	SliceSort string // for slice elements: the slice value and the index as written (reads use sget_<sort>)
+	SliceTerm string
+	RawIdx    string
 	Path  []pathStep
 }
 
@@ -352,7 +356,7 @@ func (g *Gen) heapSort(name string) string {
 	if strings.HasPrefix(name, "HA_") {
 		// array heap of a simple element sort named in a contract before any value of that type was seen
 		el := strings.TrimPrefix(name, "HA_")
-		if el == "Str" || el == "Int" || el == "Bool" || g.sorts.structs[el] != nil {
+		if el == "Str" || el == "Int" || el == "Bool" || el == "Iface" || g.sorts.structs[el] != nil {
 			s := "(Array Int (Array Int " + el + "))"
 			g.sorts.heapUsed[name] = s
 			return s
@@ -407,7 +411,15 @@ func (g *Gen) freshVal(prefix string, t types.Type, st *State) Val {
 		if st != nil {
 			st.cells[c] = g.freshVal(prefix+"_deref", el, st)
 		}
-		return Val{Ptr: &Addr{Cell: c}, GoT: t}
+		out := Val{Ptr: &Addr{Cell: c}, GoT: t}
+		if g.resultMode {
+			// a pointer returned by a callee may be nil
+			g.ctr++
+			fl := fmt.Sprintf("%s_isnil_%d", mangle(prefix), g.ctr)
+			g.declare(fl, "Bool")
+			out.NilFlag = fl
+		}
+		return out
 	}
 	if tup, ok := t.(*types.Tuple); ok {
 		var vs []Val
@@ -521,6 +533,8 @@ func (g *Gen) load(st *State, a *Addr, t types.Type) Val {
 	case a.Heap != "":
 		if a.Base {
 			root = Val{Sort: g.heapElemSort(a.Heap, true), Term: fmt.Sprintf("(select %s %s)", g.heapGet(st, a.Heap), a.Loc)}
+		} else if a.SliceSort != "" {
+			root = Val{Sort: g.heapElemSort(a.Heap, false), Term: fmt.Sprintf("(sget_%s %s %s %s)", a.SliceSort, g.heapGet(st, a.Heap), a.SliceTerm, a.RawIdx)}
 		} else {
 			root = Val{Sort: g.heapElemSort(a.Heap, false), Term: fmt.Sprintf("(select (select %s %s) %s)", g.heapGet(st, a.Heap), a.Loc, a.Idx)}
 		}
@@ -627,6 +641,12 @@ type Frame struct {
 	rangeIt map[ssa.Value]*rangeState
 	iterCells map[ssa.Value]*Cell
 	loopInfos map[*ssa.BasicBlock]*loopInfo
+	pendingCells []pendingCell // cells created while defining phis: installed into the block's entry state
+}
+
+type pendingCell struct {
+	c *Cell
+	v Val
 }
 
 type retInfo struct {
@@ -837,6 +857,10 @@ func (g *Gen) runFunc(fn *ssa.Function, args []Val, free []Val, st *State, reach
 		} else {
 			f.phis(b, nil)
 		}
+		for _, pc := range f.pendingCells {
+			bst.cells[pc.c] = pc.v
+		}
+		f.pendingCells = nil
 		breach = g.defBool(f.prefix+"reach_"+fmt.Sprint(b.Index), breach)
 		f.reach[b] = breach
 		cur := bst
@@ -1059,6 +1083,66 @@ func (f *Frame) phis(b *ssa.BasicBlock, only map[*ssa.Phi]bool) {
 			f.vals[phi] = vals[0]
 			continue
 		}
+		if pt, isPtr := phi.Type().Underlying().(*types.Pointer); isPtr {
+			// pointers to different objects meet: continue with a copy whose content is the selected object's
+			// (sound as long as the original objects are not observed afterwards: A-PHIPTR, recorded as a note)
+			el := pt.Elem()
+			srt := g.sorts.sortOf(el)
+			terms := make([]string, len(vals))
+			flags := make([]string, len(vals))
+			filler := ""
+			okAll := true
+			k := 0
+			for i, p := range b.Preds {
+				if isBackEdge(p, b) {
+					continue
+				}
+				if _, ok := f.edge[[2]int{p.Index, b.Index}]; !ok {
+					continue
+				}
+				v := vals[k]
+				if v.Ptr != nil {
+					lv := g.load(f.exit[p], v.Ptr, el)
+					if lv.Term == "" {
+						okAll = false
+					}
+					terms[k] = lv.Term
+					filler = lv.Term
+					flags[k] = "false"
+					if v.NilFlag != "" {
+						flags[k] = v.NilFlag
+					}
+				} else if v.Term == "0" {
+					flags[k] = "true"
+				} else {
+					okAll = false
+				}
+				k++
+				_ = i
+			}
+			if okAll && filler != "" {
+				for i := range terms {
+					if terms[i] == "" {
+						terms[i] = filler
+					}
+				}
+				c := g.newCell(f.prefix+phi.Name()+"_phi", srt, el)
+				f.pendingCells = append(f.pendingCells, pendingCell{c, Val{Sort: srt, Term: g.def(f.name(phi)+"_deref", srt, iteChain(conds, terms)), GoT: el}})
+				res := Val{Ptr: &Addr{Cell: c}, GoT: phi.Type()}
+				allFalse := true
+				for _, fl := range flags {
+					if fl != "false" {
+						allFalse = false
+					}
+				}
+				if !allFalse {
+					res.NilFlag = g.defBool(f.name(phi)+"_isnil", iteChain(conds, flags))
+				}
+				g.note("pointers to different objects meet at a join in %s: the merged pointer works on a copy (A-PHIPTR)", relName(f.fn))
+				f.vals[phi] = res
+				continue
+			}
+		}
 		if vals[0].Term == "" {
 			g.fail("%s: phi %s merges different static pointers", f.fn.Name(), phi.Name())
 		}
@@ -1174,32 +1258,59 @@ func (f *Frame) mergeReturns() ([]Val, *State, string) {
 			results[k] = vals[0]
 			continue
 		}
-		// pointer results: merge by content into a fresh cell
-		allPtr := true
-		for _, v := range vals {
-			if v.Ptr == nil {
-				allPtr = false
-			}
-		}
-		if allPtr {
-			rt := f.fn.Signature.Results().At(k).Type()
-			el := rt.Underlying().(*types.Pointer).Elem()
-			c := g.newCell(fmt.Sprintf("ret%d", k), g.sorts.sortOf(el), el)
-			terms := make([]string, len(vals))
-			ok := true
-			for i, v := range vals {
-				lv := g.load(f.rets[i].st, v.Ptr, el)
-				if lv.Term == "" {
-					ok = false
-					break
+		// pointer results: merge by content into a fresh cell; nil results only contribute to the nil flag
+		if rt, isPtr := f.fn.Signature.Results().At(k).Type().Underlying().(*types.Pointer); isPtr {
+			anyPtr := false
+			for _, v := range vals {
+				if v.Ptr != nil {
+					anyPtr = true
 				}
-				terms[i] = lv.Term
 			}
-			if ok {
-				s := g.sorts.sortOf(el)
-				out.cells[c] = Val{Sort: s, Term: g.def(fmt.Sprintf("ret%d_deref", k), s, iteChain(es, terms)), GoT: el}
-				results[k] = Val{Ptr: &Addr{Cell: c}, GoT: rt}
-				continue
+			if anyPtr {
+				el := rt.Elem()
+				srt := g.sorts.sortOf(el)
+				c := g.newCell(fmt.Sprintf("ret%d", k), srt, el)
+				terms := make([]string, len(vals))
+				flags := make([]string, len(vals))
+				ok := true
+				var filler string
+				for i, v := range vals {
+					if v.Ptr == nil {
+						flags[i] = "true" // nil constant
+						continue
+					}
+					lv := g.load(f.rets[i].st, v.Ptr, el)
+					if lv.Term == "" {
+						ok = false
+						break
+					}
+					terms[i] = lv.Term
+					filler = lv.Term
+					flags[i] = "false"
+					if v.NilFlag != "" {
+						flags[i] = v.NilFlag
+					}
+				}
+				if ok {
+					for i := range terms {
+						if terms[i] == "" {
+							terms[i] = filler
+						}
+					}
+					out.cells[c] = Val{Sort: srt, Term: g.def(fmt.Sprintf("ret%d_deref", k), srt, iteChain(es, terms)), GoT: el}
+					res := Val{Ptr: &Addr{Cell: c}, GoT: f.fn.Signature.Results().At(k).Type()}
+					allFalse := true
+					for _, fl := range flags {
+						if fl != "false" {
+							allFalse = false
+						}
+					}
+					if !allFalse {
+						res.NilFlag = g.defBool(fmt.Sprintf("%sret%d_isnil", f.prefix, k), iteChain(es, flags))
+					}
+					results[k] = res
+					continue
+				}
 			}
 		}
 		terms := make([]string, len(vals))
